@@ -170,7 +170,7 @@ func (m *Machine) stateConsts() map[string]string {
 	out := map[string]string{}
 	sc := m.c.Types.Scope()
 	for _, n := range sc.Names() {
-		if k, ok := sc.Lookup(n).(*types.Const); ok && isStateType(m.c, k.Type()) {
+		if k, ok := sc.Lookup(n).(*types.Const); ok && isStateType(m.c, k.Type()) && (m.stateV == nil || types.Identical(k.Type(), m.stateV.Type())) {
 			out[k.Val().ExactString()] = n
 		}
 	}
